@@ -13,7 +13,7 @@ CHECK = {'title': 'Hotter never means slower',
          'every linear min<max pair from {-20,0,1,40,41,80,120}, every non-decreasing step set over temperatures {-10,0,40,41,80} x speeds '
          '{0,1,128,254,255} (1001 sets), and every sum/maximum/minimum/average tree with <=3 function nodes (<=3 levels) over a catalogue of '
          'monotone linear members, all members on one shared sensor and every member on its own sensor (one sensor raised at a time, the others '
-         'resting at every combination of {cold, in-range, hot}). Further runs listed in this fragment: the curve value swept through the controller (memoryless direct: ascending sweep, fresh controllers, rises after histories incl. stalls; rate-limited direct and PID: from ONE controller state reached after a history the next request must be non-decreasing in the curve value), over PWM maps incl. sparse maps with redundant keys inside plateaus; and two controllers evaluating one shared function curve object under the controlled scheduler (every member evaluation is a scheduling point, all interleavings; each controller must get the value its definition gives for the hotter inputs). The curves harness runs with fan2go's default option values (tick rate 200 ms etc.). '
+         'resting at every combination of {cold, in-range, hot}). Further runs listed in this fragment: the curve value swept through the controller (memoryless direct: ascending sweep, fresh controllers, rises after histories incl. stalls; rate-limited direct and PID: from ONE controller state reached after a history the next request must be non-decreasing in the curve value), over PWM maps incl. sparse maps with redundant keys inside plateaus; and two controllers evaluating one shared function curve object under the controlled scheduler (every member evaluation is a scheduling point, all interleavings; each controller must get the value its definition gives for the hotter inputs). The curves harness runs with the daemon default option values (tick rate 200 ms etc.). '
          ' distinct_nontrivial = adjacent sweep pairs across which the observed value moves.',
  'assumptions': ['Go 1.26 toolchain (testing/synctest virtual clock) is faithful to real timer semantics',
                  'harness environment model (in-memory integer files behind the util.VerifFileOp seam, fan device model) is faithful to sysfs'],
